@@ -297,6 +297,9 @@ package vm
 //@   ensures err == nil ==> forall i8 in 0..len(m.Resources) :: !pendingBal(m.Resources[i8]) // C12
 // C01: the state Run starts from: every resource a machine value, balance tables distinct, non-nil and with non-nil entries
 //@   requires resourcesP(m) // C01
+// C02 C10: the balances a script (or a revert) is checked against are read while the request holds its account locks -- a
+// balance read before the lock is granted is stale by the time the lock is held
+//@   requires in Commander).CreateTransaction, Commander).RevertTransaction, Commander).exec: lockTaken && lockHeld // C02 C10
 //@   ensures err == nil ==> noFunding(m.Resources) && wf(m) && balNonNil(m) // C01
 //@   loop 1 invariant len(m.Resources) == old(len(m.Resources)) && m.UnresolvedResourceBalances == old(m.UnresolvedResourceBalances)
 //@   loop 1 invariant forall k7 int :: has(m.UnresolvedResourceBalances, k7) ==> 0 <= k7 && k7 < len(m.Resources) && typeis(m.Resources[k7], "machine.Monetary")
